@@ -283,6 +283,10 @@ def install(it):
 
     def b_filter(it, a, k):
         f = a[0]
+        from . import objseq
+
+        if isinstance(a[1], objseq.ObjSeq):
+            return objseq.Filtered(a[1], f)
         out = []
         for x in it.iterate(a[1]):
             r = x if f is None else it.call(f, [x], {})
@@ -309,6 +313,12 @@ def install(it):
 
     def minmax(is_min):
         def f(it, a, k):
+            from . import objseq
+
+            if len(a) == 1 and isinstance(a[0], objseq.Filtered):
+                if not is_min:
+                    raise Unsupported("max over a filtered list of unknown length")
+                return objseq.min_filtered(it, a[0], k.get("key"), k)
             if len(a) == 1:
                 items = list(it.iterate(a[0]))
             else:
